@@ -183,19 +183,33 @@ def run(prop, tier, seed):
         hists.append(gen_plugin.generate(hseed, focuses[index % len(focuses)]))
     mhists, mcs = model_guided(prop, tier, seed)
     hists = mhists + hists
-    traces = [record.run_plugin_history(h, i + 1) for i, h in enumerate(hists)]
-    verdicts = common.validate_traces("TraceT2", "TraceT2.cfg", traces, "t2-" + prop)
-    t1 = common.validate_traces("TraceT1", "TraceT1.cfg", traces, "t1-" + prop)
+    # record and validate in batches (thorough runs use thousands of histories)
+    verdicts = []
     t1sum = {"conform": 0, "diverged": 0, "unmodelled": 0, "first_divergences": []}
-    for rec in t1:
-        t1sum[rec["t1"]["c"]] += 1
-        if rec["t1"]["c"] == "diverged" and len(t1sum["first_divergences"]) < 5:
-            t1sum["first_divergences"].append({"trace": rec["id"], "step": rec["t1"]["s"],
-                                               "field": rec["t1"]["f"]})
+    nontrivial = set()
+    ntraces, nevents = 0, 0
+    batch = 1000
+    for start in range(0, len(hists), batch):
+        part = hists[start:start + batch]
+        traces = [record.run_plugin_history(h, start + i + 1) for i, h in enumerate(part)]
+        pverdicts = common.validate_traces("TraceT2", "TraceT2.cfg", traces, "t2-" + prop)
+        verdicts.extend(pverdicts)
+        for rec in common.validate_traces("TraceT1", "TraceT1.cfg", traces, "t1-" + prop):
+            t1sum[rec["t1"]["c"]] += 1
+            if rec["t1"]["c"] == "diverged" and len(t1sum["first_divergences"]) < 5:
+                t1sum["first_divergences"].append({"trace": rec["id"], "step": rec["t1"]["s"],
+                                                   "field": rec["t1"]["f"]})
+        pby = dict((r["id"], r) for r in pverdicts)
+        for offset, hist in enumerate(part):
+            if NONTRIVIAL[prop](traces[offset], pby[start + offset + 1]):
+                nontrivial.add(json.dumps([list(s) for s in hist.steps], sort_keys=True,
+                                          default=str))
+        ntraces += len(traces)
+        nevents += sum(len(t["ev"]) for t in traces)
+        del traces
     known = findings.load()
     byid = dict((r["id"], r) for r in verdicts)
     status, nviol = 0, 0
-    nontrivial = set()
     knownhits = {}
     hist_clauses = {}
     for index, hist in enumerate(hists):
@@ -203,8 +217,6 @@ def run(prop, tier, seed):
         verdict = rec["v"][prop]
         key = verdict["c"] + ("/" + verdict["tag"] if verdict["tag"] else "")
         hist_clauses[key] = hist_clauses.get(key, 0) + 1
-        if NONTRIVIAL[prop](traces[index], rec):
-            nontrivial.add(json.dumps([list(s) for s in hist.steps], sort_keys=True, default=str))
         if verdict["c"] == "ok":
             continue
         entry = findings.match(known, prop, verdict["c"], verdict["tag"])
@@ -229,14 +241,14 @@ def run(prop, tier, seed):
                    % (t1sum["diverged"], t1sum["first_divergences"][:1]))
     coverage = {
         "states": sum(m["states"] for m in mcs), "transitions": sum(m["transitions"] for m in mcs),
-        "traces_validated_against_impl": len(traces),
+        "traces_validated_against_impl": ntraces,
         "samples": [[list(s) for s in h.steps[:30]] for h in hists[len(mhists):len(mhists) + 1]] +
                    [[list(s) for s in h.steps[:30]] for h in hists[:1]],
         "evaluations": len(hists), "distinct_nontrivial": len(nontrivial), "rule": RULES[prop],
         "exhaustive": True, "model_checking": mcs, "t1_conformance": t1sum,
         "model_conformant": t1sum["diverged"] == 0,
         "model_behaviours_replayed": len(mhists), "random_histories": count,
-        "events_validated": sum(len(t["ev"]) for t in traces), "clause_histogram": hist_clauses,
+        "events_validated": nevents, "clause_histogram": hist_clauses,
     }
     evidence = {
         "property_id": prop, "tier": tier, "seed": seed, "level": "model_checking",
